@@ -235,9 +235,18 @@ func (p *parser) decl() *Decl {
 	case p.accept("ghost"):
 		if p.accept("field") {
 			d.Kind = "ghostfield"
-			d.TypeN = p.ident()
-			p.expect(".")
-			d.Name = p.ident()
+			parts := []string{p.ident()}
+			for p.accept(".") {
+				parts = append(parts, p.ident())
+			}
+			if len(parts) == 3 { // pkg.Type.field (used in shared spec files)
+				d.Pkg = parts[0]
+				parts = parts[1:]
+			}
+			if len(parts) != 2 {
+				p.fail("ghost field needs [pkg.]Type.field")
+			}
+			d.TypeN, d.Name = parts[0], parts[1]
 			d.RetType = p.typeExpr()
 		} else if p.accept("var") {
 			d.Kind = "ghostvar"
